@@ -472,3 +472,46 @@ def c19(c):
         exhaustive=False,
         exhaustive_subspaces=["every abort position (argument conversion of every invocation, body and result conversion of every callback) of every generated tree"],
         assumptions=["aborts are observed in exception mode (RLBOX_USE_EXCEPTIONS), the mode in which a crossing can end by unwinding"]))
+
+
+# --------------------------------------------------------------------- C08
+@plan("C08")
+def c08(c):
+    import random, sys
+    sys.path.insert(0, os.path.join(c.verif, "gen"))
+    import structs as sg
+    nstruct = 12 if not c.thorough else 120
+    cfgs = ["ilp32", "narrow", "wide"]
+    ntu = 4 if not c.thorough else 10
+    meta = []
+
+    def gen(cx):
+        rnd = random.Random(cx.seed * 1000 + 8)
+        d = os.path.join(cx.bdir, "gen")
+        os.makedirs(d, exist_ok=True)
+        for k in range(nstruct):
+            meta.append(sg.gen_struct(k, rnd, os.path.join(d, "s%d.hpp" % k)))
+        return True, ""
+    pre = '#include "c08_core.hpp"\nint main(int c, char** v) { return c08::run_all(c, v); }\n'
+    units, runs = [], []
+    for cfg in cfgs:
+        for t in range(ntu):
+            nm = "c08_%s_%d" % (cfg, t)
+            forms = [(k, '#include "s%d.hpp"' % k) for k in range(t, nstruct, ntu)]
+            units.append(dict(name=nm, kind="forms", build="asan0", defs=EXC + ["CFG=vsbx_" + cfg], flags=["-I" + os.path.join(c.bdir, "gen")], preamble=pre, forms=forms,
+                              aliases={k: ["/s%d.hpp:" % k, "S%d," % k, "S%d]" % k, "S%d>" % k, "S%d;" % k] for k, _ in forms}))
+            runs.append(dict(unit=nm, label=nm))
+    return dict(units=units, runs=runs, pre=[gen], evidence=dict(
+        level="exploration",
+        rule="struct family generated per run from VERIF_SEED: 3..14 fields drawn from {every integer width/signedness, bool, enum, float, double, object "
+             "pointer, pointer-to-const, function pointer, char[N], integer/double arrays, arrays of pointers, one level of nested struct} in random "
+             "order (padding varies). The compiler only filters which structs can be driven. For each struct x ABI {ILP32, NARROW, WIDE}: the sandbox "
+             "image's size and every leaf field's offset as observed through RLBox (&p->field) against the layout computed in Python from the ABI "
+             "rules (cross-checked with an independently declared fixed-width C++ struct); whole-struct store, by-value argument, whole-struct load, "
+             "copy_and_verify of the struct pointer and by-value result with per-leaf unique / boundary / random values compared leaf by leaf with "
+             "the reference conversion (a wrong value is traced to the neighbouring field it came from); bytes around the image must not change; "
+             "each narrowing leaf in turn made unrepresentable must abort (by-value argument observed in a forked child because that marshalling "
+             "runs inside noexcept functions). const-qualified scalar fields and arrays of nested structs are not generated (the library cannot "
+             "express them). distinct_nontrivial = (struct, round, offset) cases.",
+        exhaustive=False,
+        assumptions=["x86-64 natural alignment for guest scalars up to 8 bytes (as in wasm32)", "enumerations keep their host representation"]))
